@@ -1,3 +1,3 @@
 INIT Init
 NEXT Next
-INVARIANTS C14_CallbackAtomic
+INVARIANTS C14_CallbackAtomic C14_LiveStaysLive
